@@ -71,16 +71,22 @@ Record refmap := { count : Z; buckets : Z; table : tab }.
 (* flatcc_refmap_init *)
 Definition rm_init : refmap := {| count := 0; buckets := 0; table := TLeaf |}.
 
-(* _flatcc_refmap_above_load_factor: count >= buckets * n / d  (size_t) *)
-Definition above (c b : Z) : bool := w64 (b * RM_LOAD_N) / RM_LOAD_D <=? c.
-
 (* _flatcc_refmap_probe(k, i, N) ((k + i) & N) *)
 Definition probe (k i N : Z) : Z := Z.land (w64 (k + i)) N.
 
-(* calloc is assumed to refuse more than 2^52 items (2^56 bytes); see design.d/C18.md *)
-Definition RM_MAX_BUCKETS : Z := 4503599627370496.
-
 Inductive pres := PEmpty (j : Z) | PFound (j r : Z).
+
+(* GROWTH POLICY AS AN ORACLE. When the table grows, to which size, and whether calloc answers is not part of the
+   property: every insert / resize operation carries what the implementation was OBSERVED to do - the allocation was
+   refused, or the bucket count after the operation. The model rehashes to that size when it differs from its own.
+   What a policy must satisfy for the map to work (probing by mask, probe loops that end) is the side condition
+   [grow_ok] / "one empty slot remains"; an oracle that violates it yields the distinguished outcome [BadPolicy]
+   and leaves the map unchanged. *)
+Inductive oracle := ORefused | OBuckets (nb : Z).
+Inductive outcome := Done (res : Z) | AllocFailed (res : Z) | BadPolicy.
+
+(* nb = 2^e, 0 <= e <= 60 *)
+Definition is_pow2 (nb : Z) : bool := (0 <? nb) && (nb =? 2 ^ Z.log2 nb) && (Z.log2 nb <=? 60).
 
 Section WithHash.
   Variable hash : Z -> Z.    (* _flatcc_refmap_hash: ANY function *)
@@ -106,25 +112,21 @@ Section WithHash.
     | None => None
     end.
 
-  (* the part of flatcc_refmap_insert after the load factor test *)
+  (* what insert does with the slot the probe stopped at: `return T[j].ref = ref` / `++count; T[j].src = src; T[j].ref = ref` *)
+  Definition apply_pres (m : refmap) (src ref : Z) (p : pres) : refmap :=
+    match p with
+    | PFound j _ => {| count := count m; buckets := buckets m; table := tset (table m) j src ref |}
+    | PEmpty j => {| count := w64 (count m + 1); buckets := buckets m; table := tset (table m) j src ref |}
+    end.
+
+  (* probe and store (flatcc_refmap_insert once the table has its size) *)
   Definition insert_core (m : refmap) (src ref : Z) : option refmap :=
     match probe_loop m src with
-    | Some (PFound j _) => Some {| count := count m; buckets := buckets m; table := tset (table m) j src ref |}
-    | Some (PEmpty j) => Some {| count := w64 (count m + 1); buckets := buckets m; table := tset (table m) j src ref |}
+    | Some p => Some (apply_pres m src ref p)
     | None => None
     end.
 
-  (* buckets = min_buckets; while (above(count, buckets)) buckets *= 2;   [None]: the C loop does not end
-     (buckets wraps to 0 after 61 doublings and stays there) *)
-  Fixpoint grow (fuel : nat) (c b : Z) : option Z :=
-    match fuel with
-    | O => None
-    | S f => if above c b then grow f c (w64 (b * 2)) else Some b
-    end.
-
-  Inductive outcome := Done (res : Z) | AllocFailed (res : Z).
-
-  (* for (i = 0; i < buckets_old; ++i) if (T_old[i].src) flatcc_refmap_insert(refmap, T_old[i].src, T_old[i].ref); *)
+  (* flatcc_refmap_resize: for (i = 0; i < buckets_old; ++i) if (T_old[i].src) <insert T_old[i] into the new table>; *)
   Definition rehash_step (ins : refmap -> Z -> Z -> option refmap) (Told : tab) (bold : Z)
              (st : Z * refmap) : option refmap + (Z * refmap) :=
     let '(i, m) := st in
@@ -143,41 +145,47 @@ Section WithHash.
     | inr _ => None
     end.
 
-  (* flatcc_refmap_resize; [ins] is the flatcc_refmap_insert it calls back, [alloc] the answer of calloc *)
-  Definition resize_with (ins : refmap -> Z -> Z -> option refmap) (alloc : bool) (m : refmap) (c : Z)
-    : option (refmap * outcome) :=
-    let c1 := if c <? count m then count m else c in
-    match grow 64 c1 RM_MIN_BUCKETS with
-    | None => None
-    | Some b =>
-      if b =? buckets m then Some (m, Done 0) else
-      if negb (b =? RM_MIN_BUCKETS) && (negb alloc || (RM_MAX_BUCKETS <? b)) then Some (m, AllocFailed (-1)) else
-      match rehash ins (table m) (buckets m) {| count := 0; buckets := b; table := TLeaf |} with
-      | Some m' => Some (m', Done 0)
+  (* side condition on an observed bucket count: a power of two with room for the stored keys and an empty slot *)
+  Definition grow_ok (m : refmap) (nb : Z) : bool := is_pow2 nb && (count m <? nb).
+
+  (* bring the table to the observed size (memset / calloc + move every item) *)
+  Definition regrow (m : refmap) (nb : Z) : option refmap :=
+    if nb =? buckets m then Some m
+    else rehash insert_core (table m) (buckets m) {| count := 0; buckets := nb; table := TLeaf |}.
+
+  Definition is_new (p : pres) : bool := match p with PEmpty _ => true | PFound _ _ => false end.
+
+  (* flatcc_refmap_insert *)
+  Definition insert (m : refmap) (src ref : Z) (g : oracle) : option (refmap * outcome) :=
+    if src =? 0 then Some (m, Done ref) else
+    match g with
+    | ORefused => Some (m, AllocFailed RM_NOT_FOUND)
+    | OBuckets nb =>
+      if negb (grow_ok m nb) then Some (m, BadPolicy) else
+      match regrow m nb with
       | None => None
+      | Some m1 =>
+        match probe_loop m1 src with
+        | None => None
+        | Some p =>
+          (* a new key needs a slot AND must leave one empty, otherwise the next probe for an absent key does not end *)
+          if is_new p && negb (count m1 + 1 <? buckets m1) then Some (m, BadPolicy)
+          else Some (apply_pres m1 src ref p, Done ref)
+        end
       end
     end.
 
-  (* flatcc_refmap_insert. insert and resize are mutually recursive in the C; [d] bounds the nesting
-     (insert -> resize -> insert -> resize ...), [None] when it is exceeded. *)
-  Fixpoint insert_d (d : nat) (alloc : bool) (m : refmap) (src ref : Z) : option (refmap * outcome) :=
-    match d with
-    | O => None
-    | S d' =>
-      if src =? 0 then Some (m, Done ref) else
-      if above (count m) (buckets m) then
-        match resize_with (fun m s r => match insert_d d' alloc m s r with Some (m', _) => Some m' | None => None end)
-                          alloc m (w64 (count m * 2)) with
-        | None => None
-        | Some (m1, Done _) => match insert_core m1 src ref with Some m2 => Some (m2, Done ref) | None => None end
-        | Some (_, AllocFailed _) => Some (m, AllocFailed RM_NOT_FOUND)
-        end
-      else match insert_core m src ref with Some m2 => Some (m2, Done ref) | None => None end
+  (* flatcc_refmap_resize (the requested count only influences the policy) *)
+  Definition resize (m : refmap) (g : oracle) : option (refmap * outcome) :=
+    match g with
+    | ORefused => Some (m, AllocFailed (-1))
+    | OBuckets nb =>
+      if negb (grow_ok m nb) then Some (m, BadPolicy) else
+      match regrow m nb with
+      | None => None
+      | Some m1 => Some (m1, Done 0)
+      end
     end.
-
-  Definition insert := insert_d 2.
-  Definition resize (alloc : bool) := resize_with
-    (fun m s r => match insert_d 1 alloc m s r with Some (m', _) => Some m' | None => None end) alloc.
 
   (* flatcc_refmap_reset *)
   Definition reset (m : refmap) : refmap :=
@@ -188,17 +196,17 @@ Section WithHash.
 
   (* ---------------------------------------------------------------- operation sequences *)
   Inductive op :=
-  | OInsert (src ref : Z) (alloc : bool)
+  | OInsert (src ref : Z) (g : oracle)
   | OFind (src : Z)
-  | OResize (c : Z) (alloc : bool)
+  | OResize (g : oracle)
   | OReset
   | OClear.
 
   Definition run_op (m : refmap) (o : op) : option (refmap * outcome) :=
     match o with
-    | OInsert s r a => insert a m s r
+    | OInsert s r g => insert m s r g
     | OFind s => match find m s with Some r => Some (m, Done r) | None => None end
-    | OResize c a => resize a m c
+    | OResize g => resize m g
     | OReset => Some (reset m, Done 0)
     | OClear => Some (clear m, Done 0)
     end.
@@ -215,6 +223,27 @@ Section WithHash.
                 end
     end.
 End WithHash.
+
+(* ---------------------------------------------------------------- the growth policy of refmap.c (REFERENCE POLICY)
+   Transcribed separately; the map theorems do not depend on it. Properties_C18.C18_reference_policy_ok shows that it
+   satisfies the side condition (so refmap.c as transcribed never runs into BadPolicy). *)
+(* _flatcc_refmap_above_load_factor: count >= buckets * n / d  (size_t) *)
+Definition above (c b : Z) : bool := w64 (b * RM_LOAD_N) / RM_LOAD_D <=? c.
+(* buckets = min_buckets; while (above(count, buckets)) buckets *= 2;   [None]: the C loop does not end
+   (buckets wraps to 0 after 61 doublings and stays there) *)
+Fixpoint grow (fuel : nat) (c b : Z) : option Z :=
+  match fuel with
+  | O => None
+  | S f => if above c b then grow f c (w64 (b * 2)) else Some b
+  end.
+(* calloc is assumed to refuse more than 2^52 items (2^56 bytes) *)
+Definition RM_MAX_BUCKETS : Z := 4503599627370496.
+(* insert: if (above(count, buckets)) resize(count * 2) *)
+Definition ref_insert_buckets (m : refmap) : option Z :=
+  if above (count m) (buckets m) then grow 64 (w64 (count m * 2)) RM_MIN_BUCKETS else Some (buckets m).
+(* resize(c): if (c < count) c = count; grow from the minimum *)
+Definition ref_resize_buckets (m : refmap) (c : Z) : option Z :=
+  grow 64 (if c <? count m then count m else c) RM_MIN_BUCKETS.
 
 (* _flatcc_refmap_hash: MurmurHash3 64-bit finalizer over the address xor the seed *)
 Definition refmap_hash (src : Z) : Z :=
